@@ -893,6 +893,16 @@ impl StateMachine for RocksDBStateMachine {
             }
         }
 
+        // Persist the applied index atomically with the data it describes: after a crash the reported
+        // index then always matches the recovered data.
+        if let Some(highest) = highest_index_entry {
+            let meta_cf = db
+                .cf_handle(STATE_MACHINE_META_CF)
+                .ok_or_else(|| StorageError::DbError("State machine meta CF not found".to_string()))?;
+            batch.put_cf(&meta_cf, LAST_APPLIED_INDEX_KEY, highest.index.to_be_bytes());
+            batch.put_cf(&meta_cf, LAST_APPLIED_TERM_KEY, highest.term.to_be_bytes());
+        }
+
         db.write_wbwi(&batch).map_err(|e| StorageError::DbError(e.to_string()))?;
         #[cfg(deventlab_d_engine_verif)]
         crate::storage::verif_kv_points::hit("rocks.apply.after_write");
